@@ -165,10 +165,13 @@ static void perturb(Ref &r, mpfr_ptr x)
 {
     if (!r.perturb || !mpfr_number_p(x) || mpfr_zero_p(x))
         return;
-    r.rng = r.rng * 6364136223846793005ULL + 1442695040888963407ULL;
-    int k = (int)((r.rng >> 33) % 3) - 1; // -1, 0, 1
-    if (k == 0)
-        return;
+    // splitmix64; every intermediate result moves by one ulp, up or down
+    r.rng += 0x9e3779b97f4a7c15ULL;
+    uint64_t z = r.rng;
+    z = (z ^ (z >> 30)) * 0xbf58476d1ce4e5b9ULL;
+    z = (z ^ (z >> 27)) * 0x94d049bb133111ebULL;
+    z = z ^ (z >> 31);
+    int k = (z & 1) ? 1 : -1;
     mpfr_t d;
     mpfr_init2(d, r.hp);
     mpfr_mul_2si(d, x, -(long)r.p, MPFR_RNDN);
